@@ -38,8 +38,9 @@ THEOREMS = [
     'Pyiga.Props.C19.refine_sorted', 'Pyiga.Props.C19.refine_perm', 'Pyiga.Props.C19.refine_uniform_spec',
     'Pyiga.Props.C19.eq_refl', 'Pyiga.Props.C19.eq_not_symm', 'Pyiga.Props.C19.eq_sym_repaired',
     'Pyiga.Props.C19.spline_derivative',
+    'Pyiga.Props.C19.make_knots_admissible', 'Pyiga.Props.C19.make_knots_partition_of_unity',
 ]
-MODULES = ['Pyiga.Model.Knots', 'Pyiga.Model.BSpline', 'Pyiga.Proofs.Knots', 'Pyiga.Proofs.BSpline', 'Pyiga.Props.C19']
+MODULES = ['Pyiga.Model.Knots', 'Pyiga.Model.BSpline', 'Pyiga.Proofs.Knots', 'Pyiga.Proofs.BSpline', 'Pyiga.Props.C02', 'Pyiga.Props.C19']
 
 ATOL = 1e-8
 RTOL = 1e-8
